@@ -396,17 +396,24 @@ def replace_matching_item(
                 output_line = compiled_re.sub(_LINE_SCRUBBED_MESSAGE, output_line)
                 break
 
-            # This is text preceding the password and shouldn't be anonymized
-            prefix = match.group("prefix") if "prefix" in match.groupdict() else ""
-            # re.sub replaces the entire matching string, which includes prefix
-            # Therefore, anon_val should have prefix prepended if applicable
-            anon_val = prefix + _anonymize_value(
-                match.group(sensitive_item_num), pwd_lookup, reserved_words, salt
-            )
-            # Insert the replacement literally: the preserved prefix (and enclosing
-            # text) come from the input line and must not be interpreted as a regex
-            # replacement template (e.g. backslashes in a user name)
-            output_line = compiled_re.sub(lambda _match: anon_val, output_line)
+            def _replace(match_, item_num=sensitive_item_num):
+                # This is text preceding the password and shouldn't be anonymized
+                prefix = (
+                    match_.group("prefix") if "prefix" in match_.groupdict() else ""
+                )
+                # re.sub replaces the entire matching string, which includes prefix
+                # Therefore, the replacement has prefix prepended if applicable
+                return prefix + _anonymize_value(
+                    match_.group(item_num), pwd_lookup, reserved_words, salt
+                )
+
+            # The regex may match several times on one line (e.g. both tunnels of
+            # an AWS VPN document printed on one line): each match gets the
+            # replacement for its own value and keeps its own prefix.
+            # The replacement is inserted literally: the preserved prefix (and
+            # enclosing text) come from the input line and must not be interpreted
+            # as a regex replacement template (e.g. backslashes in a user name)
+            output_line = compiled_re.sub(_replace, output_line)
 
         # If any matches existed in this regex group, stop processing more regexes
         if match_found:
